@@ -14,7 +14,8 @@ WT="/tmp/$TAG-wt/repo"; VR="/tmp/$TAG-verif"; BIN="/tmp/$TAG-bin"
 cleanup() { git -C /repo worktree remove --force "$WT" >/dev/null 2>&1; rm -rf "$WT" "/tmp/$TAG-wt" "$VR" "$BIN" "/tmp/$TAG.mod" "/tmp/$TAG.sum"; }
 trap cleanup EXIT
 mkdir -p "/tmp/$TAG-wt"; git -C /repo worktree add --detach "$WT" HEAD >/dev/null 2>&1 || { echo "worktree failed"; exit 2; }
-if ! git -C "$WT" apply "$PATCH" 2>/tmp/$TAG.err; then echo "PATCH-DOES-NOT-APPLY $(head -2 /tmp/$TAG.err)"; rm -f /tmp/$TAG.err; exit 3; fi
+# patches are taken against the tree the worker saw; later fix commits may have moved the context: fall back to a 3-way merge
+if ! git -C "$WT" apply "$PATCH" 2>/tmp/$TAG.err && ! git -C "$WT" apply --3way "$PATCH" 2>>/tmp/$TAG.err; then echo "PATCH-DOES-NOT-APPLY $(head -2 /tmp/$TAG.err)"; rm -f /tmp/$TAG.err; exit 3; fi
 rm -f /tmp/$TAG.err
 sed "s#=> /repo#=> $WT#" "$HERE/harness/go.mod" > "/tmp/$TAG.mod"; cp "$HERE/harness/go.sum" "/tmp/$TAG.sum"
 mkdir -p "$VR/evidence" "$BIN"; cp "$HERE/known_findings.json" "$VR/"
